@@ -69,7 +69,8 @@ Cell(kind, attrs, kids) == Node(kind, <<>>, <<>>, attrs, kids)
 Row(attrs, cells) == Node("TABLE_ROW", <<>>, <<>>, attrs, cells)
 Table(attrs, kids) == Node("TABLE", <<>>, <<>>, attrs, kids)
 Sec(l, title, body) == Node(CASE l = 2 -> "LEVEL2" [] l = 3 -> "LEVEL3" [] l = 4 -> "LEVEL4", <<>>, <<title>>, <<>>, body)
-BlockW == {"para", "title", "secbody", "ul", "ol", "nested", "dterm", "ddef", "indent", "cell", "hcell", "caption", "capattr", "div", "li"}
+BlockW == {"para", "title", "secbody", "ul", "ol", "nested", "dterm", "ddef", "indent", "cell", "hcell", "caption", "capattr", "div", "li",
+           "dline", "ndline", "dsub", "ndsub"}
 \* a block sequence (children of ROOT / a section / a div) holding inline x in context w
 Blk(w, x) ==
   CASE w = "para" -> JoinKids(x, <<NL>>)
@@ -82,6 +83,14 @@ Blk(w, x) ==
                                          Item(<<"*">>, Line(<<S(<<"z2">>)>>))>>)>>
     [] w = "dterm" -> <<List(<<";">>, <<[Item(<<";">>, J3(<<S(<<"SP">>)>>, x, <<S(<<"SP">>)>>)) EXCEPT !.defn = <<Line(<<S(<<"d1">>)>>)>>]>>)>>
     [] w = "ddef" -> <<List(<<";">>, <<[Item(<<";">>, <<S(<<"SP", "t1", "SP">>)>>) EXCEPT !.defn = <<Line(x)>>]>>)>>
+    \* definition on a line of its own (term ends its line), top level and nested in a * list, without and
+    \* with a sub-list of the term as the last child of the item
+    [] w = "dline" -> <<List(<<";">>, <<[Item(<<";">>, Line(x)) EXCEPT !.defn = <<Line(<<S(<<"d1">>)>>)>>]>>)>>
+    [] w = "ndline" -> <<List(<<"*", ";">>, <<[Item(<<"*", ";">>, Line(x)) EXCEPT !.defn = <<Line(<<S(<<"d1">>)>>)>>]>>)>>
+    [] w = "dsub" -> <<List(<<";">>, <<[Item(<<";">>, Line(x) \o <<List(<<";", "#">>, <<Item(<<";", "#">>, Line(<<S(<<"z1">>)>>))>>)>>)
+                                        EXCEPT !.defn = <<Line(<<S(<<"d1">>)>>)>>]>>)>>
+    [] w = "ndsub" -> <<List(<<"*", ";">>, <<[Item(<<"*", ";">>, Line(x) \o <<List(<<"*", ";", "#">>, <<Item(<<"*", ";", "#">>, Line(<<S(<<"z1">>)>>))>>)>>)
+                                              EXCEPT !.defn = <<Line(<<S(<<"d1">>)>>)>>]>>)>>
     [] w = "indent" -> <<List(<<":">>, <<Item(<<":">>, Line(x))>>)>>
     [] w = "cell" -> <<Table(A1, <<Row(<<>>, <<Cell("TABLE_CELL", <<>>, x), Cell("TABLE_HEADER_CELL", A1, <<S(<<"h1">>)>>)>>),
                                    Row(A2, <<Cell("TABLE_CELL", A2, <<S(<<"z1">>)>>), Cell("TABLE_CELL", <<>>, x)>>)>>), NL>>
@@ -150,7 +159,9 @@ Write(x) ==
        [] x.kind = "TABLE_HEADER_CELL" -> EndNL(<<"!">> \o AttrPart \o Body)
        [] x.kind = "TABLE_CELL" -> EndNL(<<"|">> \o AttrPart \o Body)
        [] x.kind = "LIST_ITEM" ->
-            IF x.defn = <<>> THEN x.sarg \o kids ELSE x.sarg \o kids \o <<":">> \o WriteList(x.defn[1])
+            IF x.defn = <<>> THEN x.sarg \o kids
+            ELSE LET head == x.sarg \o kids IN
+                 head \o (IF head[Len(head)] = "NL" THEN SubSeq(x.sarg, 1, Len(x.sarg) - 1) ELSE <<>>) \o <<":">> \o WriteList(x.defn[1])
        [] x.kind \in {"LINK", "URL", "TEMPLATE", "TEMPLATE_ARG", "PARSER_FN"} ->
             \* same spelling as the library, children written recursively
             (CASE x.kind = "LINK" -> <<"[", "[">> \o WriteArgs(x.largs, <<"|">>) \o <<"]", "]">> \o kids
